@@ -8,33 +8,48 @@ import numpy as np
 from symx import terms as T
 from symx import stubs
 from symx.framework import Obligation, V
-from symx.engine import SymReal, SymBool, term_of, current
+from symx.engine import SymReal, SymBool, term_of
 from symx.shim import Recorder, NumpyProxy
 from . import common as H
 from .common import K, Mode
 
 EXPLANATION = ('The real solver constructors (ExactSolver.__init__, setup_solver with its dimensionalisation block, '
-               'radshock.RadShock/IEShock.__init__), the real _run, the real downstream_equilibrium and the real profile '
-               'assembly (splice_precursor_and_relaxation / make_ED_solution with every fnctn_* state function) are executed on '
-               'symbolic reals.  Only the numerical table generators are replaced: the ODE integrations by small tables of '
-               'arbitrary (symbolic) node values, fsolve by its contract f(x*)=0.  z3 then decides: solver(x,t) == solver(x - '
-               'M0*a0*t, 0) with a0 from the instance parameters; the dimensional scales; mass, total momentum and total energy '
-               'flux equal to their far-upstream values at every profile node; end states in radiative equilibrium and related '
-               'by the radiation-modified jump conditions.')
-BOUNDS = ['profile tables of 3 (travelling-wave / scaling obligations) or 6 (flux obligations: 2 precursor + 2 relaxation nodes + '
-          '2 equilibrium end states) nodes with arbitrary symbolic node values; one evaluation point and one time per run',
-          'solver classes, closure names (nED, LM_nED, FLD_1, FLD_2, FLD_poly, FLD_LP, Sn variable Eddington factor) and table sizes '
-          'enumerated; all real parameters symbolic unless the obligation id says otherwise']
+               'radshock.RadShock/IEShock.__init__, nED_driver/Sn_driver, the *_ShockProfiles constructors), the real _run, the '
+               'real downstream_equilibrium and the real profile assembly (splice_precursor_and_relaxation / make_ED_solution '
+               'with every fnctn_* state function they call) are executed on symbolic reals.  Only the numerical table generators '
+               'are replaced: the ODE integrations and transport sweeps by small tables of arbitrary (symbolic) node values, '
+               'fsolve by its contract f(x*)=0.  z3 then decides: solver(x,t) == solver(x - M0*a0*t, 0) field by field with a0 from '
+               'the instance gamma, Cv, Tref; the dimensional scales (incl. that dimensional total fluxes are a common scale times '
+               'the nondimensional ones); mass, total momentum and total energy flux equal to their far-upstream values at every '
+               'profile node; end states in radiative equilibrium and related by the radiation-modified jump conditions.')
+BOUNDS = ['profile tables of 2-3 (travelling-wave / scaling obligations) or 6 (flux obligations: 2 precursor + 2 relaxation nodes + '
+          '2 equilibrium end states; ED: 1 interior node + 2 end states) nodes with arbitrary symbolic node values; one evaluation '
+          'point and one time per run',
+          'solver classes, closure names (nED, LM_nED, FLD_1, FLD_2, FLD_poly, FLD_LP, Sn variable Eddington factor) enumerated; all '
+          'real parameters (M0, rho0, gamma, Cv, Tref, sigA, sigS, the four cross-section exponents, epsilon, t, x) symbolic unless '
+          'the obligation id or its bounds text says otherwise',
+          'FLD_2/FLD_poly/FLD_LP: the flux-limiter values (Lambda, R) of every interior node are arbitrary symbols (the closure '
+          'formulas of fnctn_FLD.dEdx are not part of the flux balance); FLD_1: real dEdx (constants)',
+          'Sn: the transported Eddington factor is an arbitrary linear function of the local Mach number']
 OUTSIDE = ['that the ODE integrators produce node values on the true integral curve (x positions of the nodes, monotonicity, '
            'existence of the precursor/relaxation overlap): flux constancy is decided for ARBITRARY node values (P or E, Mach), '
            'which is stronger at the nodes and says nothing between nodes (the solvers interpolate linearly there)',
-           'Sn transport sweeps and the variable-Eddington-factor iteration (the factor enters as an arbitrary table)',
-           'existence/uniqueness/selection of the downstream root by fsolve; failures to produce a solution',
-           'radiation flux at the two end nodes of the equilibrium-diffusion profile (computed through 1/(1/0) in IEEE arithmetic)']
-ASSUMPTIONS = ['fsolve stub: the returned (rho1, T1) is an arbitrary zero of the real momentum_and_energy residual with rho1 > 0, '
-               'T1 > 0 (flux obligations additionally: local Mach number < 1 downstream, as the code itself assumes)',
+           'Sn transport sweeps and the variable-Eddington-factor iteration; for Sn the total energy flux is shown constant on each '
+           'side of M = 1 only (equality of the two constants with the analytic value needs f = 1/3 in both end states, i.e. a '
+           'converged transport solution)',
+           'existence/uniqueness/selection of the downstream root by fsolve; parameter sets for which no solution is produced',
+           'radiation flux at the two end nodes of the equilibrium-diffusion profile (computed through 1/(1/0) in IEEE arithmetic)',
+           'ion-electron solver (ie_Solver, not a radiative shock): only its travelling-wave form, scales and the jump conditions '
+           'between its own end states are claimed; its nondimensional upstream state is (rho0, 1/rho0^2) instead of (1, 1), so '
+           'ie_Solver(rho0 != 1) returns ambient density rho0^2 and temperature Tref/rho0^2 (reported, not claimed here)']
+ASSUMPTIONS = ['fsolve contract: (rho1, T1) is an arbitrary zero of the real momentum_and_energy residual with rho1 > 0, T1 > 0 and '
+               'local Mach number M0/(rho1 sqrt(T1)) < 1; stated as an explicit hypothesis of exactly the claims that need it',
                'symbolic powers rho**a, T**b of the cross sections are positive atoms (exponent relations proved by z3)',
-               'int() of a symbolic table size inside utils.py is replaced by a small constant (table sizes are stubbed anyway)']
+               'int() of a symbolic table size and deepcopy of symbolic values inside utils.py are replaced (table sizes are '
+               'stubbed anyway); numpy.where / comparisons on the assembled Mach table build if-then-else terms whose conditions '
+               'are then proved node by node instead of splitting the path',
+               'claims are generalised before they reach z3 (sub-terms replaced by free variables, rewriting with equalities that '
+               'are proved as claims of their own): sound for unsat verdicts; sat verdicts are replayed on the unshimmed code']
 META = {
     'level_text': ('Bounded symbolic check of the real radiative-shock code paths around the ODE integrations: constructors, '
                    'dimensionalisation, _run translation, downstream equilibrium, profile assembly and all fnctn_* state '
@@ -398,7 +413,6 @@ class SciProxy(object):
 
     def fsolve(self, func, x0, args=(), **kw):
         name = getattr(func, '__name__', '')
-        ex = current()
         if name.startswith('discriminant'):
             return np.array([1.0])           # only used as the initial guess of the next fsolve
         if name == 'momentum_and_energy':
